@@ -26,6 +26,9 @@ EXPLANATION += ' CG-SIZE-X86.'
 CLAIM += (' The end-of-iteration fragments of the hand-written x86 runtime store r0-r7 at spAddr1 before f0-f3 at spAddr0, through the stack slots the load half of the loop filled (X86-LOOPSTORE); no plain member of the compiler object is read before it has been given a value (CTOR-INIT).')
 EXPLANATION += ' X86-LOOPSTORE, CTOR-INIT.'
 
+EXPLANATION += ' X86-LOOPLOAD.'
+CLAIM += (' The load half of the hand-written loop XORs r(8+j) with the j-th quadword at spAddr0, converts the eight 8-byte groups at spAddr1 into f0-f3 / e0-e3 and masks only the e registers (X86-LOOPLOAD).')
+
 
 def run(ctx, R):
     FI = astq.Facts(ctx, 'K0')
